@@ -434,7 +434,8 @@ pub fn wide_program(idx: u64) -> Option<Program> {
             // reads far beyond the end, of an array and of a string: missing elements, not errors
             let far = [1e9, 4294967296.0, 9007199254740992.0, 18446744073709551615.0, 18446744073709551616.0, 1e30, 1e300, f64::MAX];
             let k = far[(idx as usize) % far.len()];
-            ss.push(Stmt::Push { array: pvar(&xs), value: Some(PushRhs::List((0..(n % 5)).map(|i| num(i as f64)).collect())) });
+            let elems: Vec<Expr> = (0..(n % 5)).map(|i| num(i as f64)).collect();
+            ss.push(Stmt::Push { array: pvar(&xs), value: if elems.is_empty() { None } else { Some(PushRhs::List(elems)) } });
             ss.push(say(Expr::Prim(Prim::Sub(Box::new(pvar(&xs)), Box::new(Prim::Lit(Lit::Num(k)))))));
             ss.push(put(bin(BinOp::Divide, num(1.0), num(0.0)), &simple("Far")));
             ss.push(say(Expr::Prim(Prim::Sub(Box::new(pvar(&xs)), Box::new(pvar(&simple("Far")))))));
@@ -461,6 +462,60 @@ fn letters(i: usize) -> String {
     s
 }
 
+/// Roll / rock / turn / cut aimed at the RESULT of a `roll` expression (a temporary). Whether that is an error
+/// (as for the result of a call) or acts on the temporary is not fixed by the statement; what it cannot do is act
+/// on some other variable. Per program: the outputs that are acceptable (an early runtime error, or the
+/// compositional reading).
+const TEMPORARY_TARGETS: &[(&str, &str, &[&str])] = &[
+    (
+        "roll_of_a_roll",
+        "rock Inner with \"a\", \"b\"\nrock Xs with Inner, \"c\"\nsay \"start\"\nlet Y be roll roll Xs\nsay Y\nsay Xs\n",
+        &["start\n", "start\na\n1\n"],
+    ),
+    ("rock_onto_a_roll", "rock Zs with 1, 2\nsay \"start\"\nrock roll Zs with 9\nsay Zs\nsay Zs at 0\n", &["start\n", "start\n1\n2\n"]),
+    ("turn_of_a_roll_of_a_number", "let X be 1.5\nsay \"start\"\nturn up roll X\nsay X\n", &["start\n"]),
+    ("turn_of_a_roll", "rock Xs with 1.5, 2.5\nsay \"start\"\nturn up roll Xs\nsay Xs\nsay Xs at 0\n", &["start\n", "start\n1\n2.5\n"]),
+    ("roll_into_of_a_roll", "rock Inner with 1, 2\nrock Xs with Inner, 3\nsay \"start\"\nroll roll Xs into Y\nsay Y\nsay Xs\n", &["start\n", "start\n1\n1\n"]),
+    ("cut_of_a_roll", "rock Xs with \"a,b\", \"c\"\nsay \"start\"\ncut roll Xs with \",\"\nsay Xs\nsay Xs at 0\n", &["start\n", "start\n1\nc\n"]),
+];
+
+fn temporary_target_case(ctx: &mut Ctx, idx: u64) {
+    use crate::mon::{self, ExecOpts, ExecOutcome};
+    let (name, src, acceptable) = TEMPORARY_TARGETS[idx as usize % TEMPORARY_TARGETS.len()];
+    let case = || Json::obj().with("src", Json::s(src)).with("case", Json::s(name));
+    let prog = match mon::parse_quiet(src) {
+        Ok(p) => p,
+        Err(_) => {
+            // a grammar that does not accept the form at all is one way of refusing it
+            ctx.count("temporary_target_rejected_by_the_parser");
+            return;
+        }
+    };
+    ctx.eval();
+    let opts = ExecOpts { fuel: 10_000, log_events: false, log_dict: false, trap: true };
+    match mon::exec_guarded(&prog, b"", &opts) {
+        ExecOutcome::Done(run) => {
+            ctx.sites.absorb();
+            let out = String::from_utf8_lossy(&run.stdout).to_string();
+            let early_error = run.result.is_err() && out == acceptable[0];
+            let composed = run.result.is_ok() && acceptable[1..].contains(&out.as_str());
+            if early_error || composed {
+                ctx.count("temporary_target_cases_held");
+            } else {
+                ctx.violation(
+                    &format!("write_into_a_temporary_lands_elsewhere:{}", name),
+                    &format!("stdout {:?}, result {:?}; acceptable: a runtime error after {:?}, or success with one of {:?}", out, run.result, acceptable[0], &acceptable[1..]),
+                    case(),
+                );
+            }
+        }
+        ExecOutcome::Panicked(p, _) => {
+            ctx.sites.absorb();
+            ctx.panic_outcome("exec", &p, case());
+        }
+    }
+}
+
 pub fn run(ctx: &mut Ctx) {
     if ctx.miri {
         ctx.cases("miri", ctx.nshards as u64, |ctx, rng, _| {
@@ -470,6 +525,7 @@ pub fn run(ctx: &mut Ctx) {
         return;
     }
     ctx.cases("fractional_index", 3_000, |ctx, rng, _| fractional_index_case(ctx, rng));
+    ctx.cases("temporary_targets", TEMPORARY_TARGETS.len() as u64, |ctx, _, idx| temporary_target_case(ctx, idx));
     ctx.cases("wide_and_deep", 77, |ctx, rng, idx| {
         if let Some(p) = wide_program(idx) {
             let c = exec_compare(ctx, "wide", &p, b"", &Spelling::canonical(), rng);
